@@ -17,6 +17,17 @@ VERIF = os.path.dirname(os.path.dirname(os.path.abspath(__file__)))
 ALL = [f"C{i:02d}" for i in range(1, 17)]
 
 
+def _findings(out: str):
+    """{(key, explanation)} of the FINDING blocks of a check's output."""
+    lines = out.splitlines()
+    res = set()
+    for i, l in enumerate(lines):
+        if l.startswith("FINDING") and "key=" in l:
+            detail = lines[i + 2].strip() if i + 2 < len(lines) and lines[i + 2].startswith("    ") else ""
+            res.add((l.split("key=")[1], detail))
+    return res
+
+
 def run_one(args):
     sid, all_checks, repo = args[:3]
     tr_arg = args[3] if len(args) > 3 else None
@@ -26,8 +37,24 @@ def run_one(args):
     try:
         shutil.copytree(repo, os.path.join(tmp, "repo"), ignore=shutil.ignore_patterns(".git", "__pycache__", "_test_minimized", "docs", "binder", "benchmarks"))
         r = subprocess.run(["patch", "-p1", "-s", "-i", os.path.join(d, "patch.diff")], cwd=os.path.join(tmp, "repo"), capture_output=True, text=True)
+        baseline_keys = None
         if r.returncode != 0:
-            return sid, meta, None, "patch does not apply: " + (r.stdout + r.stderr)[:200]
+            # a later `fix:` commit touched the same lines: evaluate the change on the tree it was written against (git history of /repo) and count only the
+            # findings the change ADDS to what the checks report on that tree without it
+            shutil.rmtree(os.path.join(tmp, "repo"))
+            os.makedirs(os.path.join(tmp, "repo"))
+            commit = meta.get("applies_to_repo_commit", "")
+            ar = subprocess.run(f"git -C {repo} archive {commit} code_data | tar -x -C {os.path.join(tmp, 'repo')}", shell=True, capture_output=True, text=True)
+            if ar.returncode != 0:
+                return sid, meta, None, "patch does not apply to the current tree and the commit it was written against is not available: " + ar.stderr[:120]
+            baseline_keys = {}
+            for pid in (ALL if all_checks else [meta["property"]]):
+                env = dict(os.environ, VERIF_EVIDENCE_DIR=os.path.join(tmp, "ev0"))
+                c0 = subprocess.run([sys.executable, os.path.join(VERIF, "check"), pid, "--repo", os.path.join(tmp, "repo")], capture_output=True, text=True, env=env, timeout=900)
+                baseline_keys[pid] = (_findings(c0.stdout), c0.returncode)
+            r = subprocess.run(["patch", "-p1", "-s", "-i", os.path.join(d, "patch.diff")], cwd=os.path.join(tmp, "repo"), capture_output=True, text=True)
+            if r.returncode != 0:
+                return sid, meta, None, f"patch does not apply, neither to the current tree nor to {commit}: " + (r.stdout + r.stderr)[:200]
         tr = tr_arg if tr_arg is not None else [a.split("=", 1)[1] for a in sys.argv if a.startswith("--transform=")]
         if tr:
             sys.path.insert(0, os.path.join(VERIF, "selftest"))
@@ -40,7 +67,15 @@ def run_one(args):
             c = subprocess.run([sys.executable, os.path.join(VERIF, "check"), pid, "--repo", os.path.join(tmp, "repo")], capture_output=True, text=True, env=env, timeout=900)
             keys = [l.split("key=")[1] for l in c.stdout.splitlines() if l.startswith("FINDING")]
             err = [l for l in c.stdout.splitlines() if l.startswith("ANALYSIS-ERROR")]
-            res[pid] = (c.returncode, keys, err)
+            rc = c.returncode
+            if baseline_keys is not None:
+                base, rc0 = baseline_keys[pid]
+                # a finding is "added" when its key is new or the same obligation now fails with another explanation
+                keys = [k for k, detail in _findings(c.stdout) if (k, detail) not in base]
+                if rc == 1 and not keys:
+                    rc = 2 if err else 0  # nothing beyond what the old tree's own (since fixed) defects produce
+                keys = keys and (keys + [f"(evaluated on /repo {meta.get('applies_to_repo_commit')}: findings added by the change)"])
+            res[pid] = (rc, keys, err)
         return sid, meta, res, ""
     finally:
         shutil.rmtree(tmp, ignore_errors=True)
